@@ -265,6 +265,29 @@ def expand_fn(src, qual, opts, sections, tline0, notes):
             if lb is None:
                 raise GenError('%s %s: loop %d body not found' % (src.rel, qual, s['n']))
             inserts.append((lb, sec_lines(s)))
+        elif s['kind'] == 'loopend':
+            loops = [m for m in find_code(text, cls, r'(?<![\w.!])(while|for|loop)\b(?!\s*<)', bo, bc)]
+            if s['n'] > len(loops) or s['n'] < 1:
+                raise GenError('%s %s: loop %d not found (%d loops)' % (src.rel, qual, s['n'], len(loops)))
+            lk = loops[s['n'] - 1]
+            depth = 0
+            lb = None
+            for i in range(lk.end(), bc):
+                if cls[i] != CODE:
+                    continue
+                ch = text[i]
+                if ch in '([':
+                    depth += 1
+                elif ch in ')]':
+                    depth -= 1
+                elif ch == '{' and depth == 0:
+                    lb = i
+                    break
+            if lb is None:
+                raise GenError('%s %s: loop %d body not found' % (src.rel, qual, s['n']))
+            le = match_close(text, cls, lb)
+            ls = text.rfind('\n', 0, le) + 1
+            inserts.append((ls, sec_lines(s), 'line'))
         elif s['kind'] == 'atend':
             # just before the closing brace of the function body (only meaningful for functions whose last
             # statement is not a tail expression)
@@ -498,6 +521,8 @@ def generate(repo, tmpl_path, outdir, probe=None):
                         cur = {'kind': kind, 'anchor': rest.strip(), 'lines': []}
                         if k:
                             cur['k'] = k
+                    elif head == 'loopend':
+                        cur = {'kind': 'loopend', 'n': int(rest.split()[0]), 'lines': []}
                     elif head == 'atend':
                         cur = {'kind': 'atend', 'lines': []}
                     elif head == 'subst':
